@@ -4,15 +4,15 @@ from ..drivers import shapes as drv
 ID = "C19"
 LEVEL = "exploration"
 TECHNIQUE = ("runtime monitoring: exhaustive shape x dtype grid driven through the real constructors with the outcome known by construction, plus nBytes == len(encoding) asserted for every accepted object")
-RULE = ("for each of 20 validated constructor arguments (volume / rotation / translation of Data3D, ForceTorque3D, CalibrationDataBlock; the 7 Seelab camera parameters; (2,2) viewport coercion in Seelab and optical channels; CameraViewPort origin and size, singly and as an 11 x 11 joint grid incl. size omitted; two-element lists / tuples of python and numpy scalars, namedtuples and list / tuple / ndarray subclasses) all 156 array shapes of rank 0-3 with extents 0..4 in 8 dtypes, plus None / str / int / float / bytes / list / tuple / dict / object, exactly-shaped lists / tuples and object / string arrays (acceptance not judged, size must agree); ForceTorqueTrack: all 12^3 shape triples; Event: 23 value kinds x both event kinds + lengths 0..5; non-trivial = every case")
+RULE = ("for each of 20 validated constructor arguments (volume / rotation / translation of Data3D, ForceTorque3D, CalibrationDataBlock; the 7 Seelab camera parameters; (2,2) viewport coercion in Seelab and optical channels; CameraViewPort origin and size, singly and as an 11 x 11 joint grid incl. size omitted; two-element lists / tuples of python and numpy scalars, namedtuples and list / tuple / ndarray subclasses) all 156 array shapes of rank 0-3 with extents 0..4 in 8 dtypes, plus None / str / int / float / bytes / list / tuple / dict / object, exactly-shaped lists / tuples and object / string arrays (acceptance not judged, size must agree); ForceTorqueTrack: all 12^3 shape triples; Event: 23 value kinds x both event kinds + lengths 0..5; history independence: the same array object offered again after being reshaped in place (valid -> invalid -> valid, invalid -> valid), and a compact refusal matrix (exact shape, same-size other shapes, None per argument) repeated after successful encodes / decodes, failed decodes (truncated, unknown format) of every block kind and refused constructor calls; non-trivial = every case")
 ASSUMPTIONS = ["except in the joint viewport grid only the argument under test varies; all other arguments are valid and mutually consistent", "refuse = any exception at construction", "exactly-shaped lists/tuples for non-viewport arguments and non-numeric dtypes are not judged on acceptance"]
-REQUIRED = {t: "oracle:C19.accept oracle:C19.refuse oracle:C19.accepted-object-sizes-right c19:Data3D c19:ForceTorque3D c19:CalibrationDataBlock c19:SeelabCameraData c19:CameraViewPort c19:OpticalChannelData c19:ForceTorqueTrack(application_point,force,torque) c19:Event".split() for t in ("quick", "thorough")}
+REQUIRED = {t: "oracle:C19.accept oracle:C19.refuse oracle:C19.accepted-object-sizes-right c19:Data3D c19:ForceTorque3D c19:CalibrationDataBlock c19:SeelabCameraData c19:CameraViewPort c19:OpticalChannelData c19:ForceTorqueTrack(application_point,force,torque) c19:Event c19:same-object-offered-again c19:compact-matrix-after-event c19:history:failed-decodes c19:history:decode-ok".split() for t in ("quick", "thorough")}
 
 
 def plan(tier, seed):
     if tier == "quick":
-        return [{"kind": "grid"}, {"kind": "coupled"}]
-    return [{"kind": "grid"}, {"kind": "coupled", "reps": 3}] + [{"kind": "combo", "shard": s, "n": 40000} for s in range(8)]
+        return [{"kind": "grid"}, {"kind": "coupled"}, {"kind": "history"}]
+    return [{"kind": "grid"}, {"kind": "coupled", "reps": 3}, {"kind": "history"}] + [{"kind": "combo", "shard": s, "n": 40000} for s in range(8)]
 
 
 def run_shard(desc, rec):
